@@ -540,6 +540,19 @@ fn exec_inner(t: &[&str]) -> Option<Out> {
             let got = rrsig.authenticated_ttl(&r, now);
             simple(format!("attl {exp} {ottl} {rttl} {now}"), got.to_string())
         }
+        ["vkx", expect, rest @ ..] => {
+            // an external vector (tools/gen_rsa_vectors.py): a `vk` line whose verdict must be Secure (EXPECT = OK)
+            let mut v: Vec<&str> = vec!["vk"];
+            v.extend_from_slice(rest);
+            let mut o = exec_inner(&v)?;
+            let secure = o.out.starts_with("ok S");
+            o.stats.push(format!("vkx.{}.{}", expect, if secure { "secure" } else { "rejected" }));
+            if *expect == "OK" && !secure {
+                o.fails.push(("a genuine third-party (openssl) signature over the reference signed data is not accepted (Secure expected)".into(), String::new()));
+            }
+            o.line = format!("vkx {expect} {}", o.line.strip_prefix("vk ")?);
+            Some(o)
+        }
         ["vk", now, kp, key, sg, name, ty, _orc, recs @ ..] => {
             let now: u32 = now.parse().ok()?;
             let kproof = parse_proof(kp)?;
@@ -725,7 +738,9 @@ fn exec_inner(t: &[&str]) -> Option<Out> {
                 // without a DNSKEY lookup: fresh/cached cannot be told apart (and does not matter)
                 let signer_l = s.signer.lower_labels();
                 let owner_l = name_n.lower_labels();
-                let nolookup = !(signer_l.len() <= owner_l.len() && signer_l.iter().rev().zip(owner_l.iter().rev()).all(|(a, b2)| a == b2));
+                // (since /repo 4f49cf9 also: an RRSIG over a DS RRset that names the DS owner itself as signer)
+                let nolookup = !(signer_l.len() <= owner_l.len() && signer_l.iter().rev().zip(owner_l.iter().rev()).all(|(a, b2)| a == b2))
+                    || (ty == 43 && !owner_l.is_empty() && signer_l == owner_l && s.signer.fqdn == name_n.fqdn);
                 let out = format!(
                     "{} {} {} sig {sig_out} dev={}{}",
                     if nolookup { "nolookup" } else if fresh { "fresh" } else { "cached" },
